@@ -55,7 +55,71 @@ def fingerprint():
                     parts['%s.%s.%s' % (name, k, ck)] = hashlib.sha1(visit(cv, 0).encode()).hexdigest()[:12]
             elif not isinstance(v, (types.ModuleType, type)) and not callable(v):
                 parts['%s.%s' % (name, k)] = hashlib.sha1(visit(v, 0).encode()).hexdigest()[:12]
+        # objects held as DEFAULT ARGUMENT VALUES of the library's functions and methods are created once per process and shared by every
+        # call (and every thread): they are process-global state like a module attribute
+        fns = []
+        for k, v in sorted(vars(mod).items()):
+            if isinstance(v, types.FunctionType) and getattr(v, '__module__', None) == name:
+                fns.append(('%s.%s' % (name, k), v))
+            elif isinstance(v, type) and getattr(v, '__module__', None) == name:
+                for ck, cv in sorted(vars(v).items()):
+                    f_ = cv.__func__ if isinstance(cv, (staticmethod, classmethod)) else cv
+                    if isinstance(f_, types.FunctionType):
+                        fns.append(('%s.%s.%s' % (name, k, ck), f_))
+        for fname, f_ in fns:
+            dflt = list(f_.__defaults__ or ()) + [x for _, x in sorted((f_.__kwdefaults__ or {}).items())]
+            held = [x for x in dflt if not isinstance(x, (str, int, float, bool, type(None), bytes, frozenset)) and not callable(x) and not (isinstance(x, tuple) and not x)]
+            if held:
+                parts['%s.<default arguments>' % fname] = hashlib.sha1(visit(held, 0).encode()).hexdigest()[:12]
     return parts
+
+
+def deep_repr(o, depth=0, seen=None):
+    """structural text of an object (attributes, items), identities replaced by visit order"""
+    seen = {} if seen is None else seen
+    if depth > 5:
+        return 'DEPTH'
+    if isinstance(o, (str, int, float, bool, type(None), bytes)):
+        return repr(o)
+    if callable(o) or isinstance(o, (types.ModuleType, type)):
+        return 'F:' + getattr(o, '__qualname__', type(o).__name__)
+    if id(o) in seen:
+        return 'REF%d' % seen[id(o)]
+    seen[id(o)] = len(seen)
+    if isinstance(o, dict):
+        return 'D{' + ','.join(sorted('%s:%s' % (deep_repr(k, depth + 1, seen), deep_repr(v, depth + 1, seen)) for k, v in o.items())) + '}'
+    if isinstance(o, (list, tuple)):
+        return 'L[' + ','.join(deep_repr(x, depth + 1, seen) for x in o) + ']'
+    if isinstance(o, (set, frozenset)):
+        return 'S{' + ','.join(sorted(deep_repr(x, depth + 1, seen) for x in o)) + '}'
+    if hasattr(o, '__dict__'):
+        return 'O:%s{' % type(o).__name__ + ','.join('%s=%s' % (k, deep_repr(v, depth + 1, seen)) for k, v in sorted(vars(o).items())) + '}'
+    if hasattr(o, '__slots__'):
+        return 'O:%s{' % type(o).__name__ + ','.join('%s=%s' % (k, deep_repr(getattr(o, k, None), depth + 1, seen)) for k in o.__slots__) + '}'
+    return 'X:' + type(o).__name__
+
+
+def default_argument_objects():
+    """(function name, object) for every mutable object held as a default argument value of a function / method of mindsdb_sql.* / sly.*"""
+    out = []
+    for name, mod in sorted(sys.modules.items()):
+        if mod is None or not (name == 'sly' or name.startswith('sly.') or name == 'mindsdb_sql' or name.startswith('mindsdb_sql.')):
+            continue
+        fns = []
+        for k, v in sorted(vars(mod).items()):
+            if isinstance(v, types.FunctionType) and getattr(v, '__module__', None) == name:
+                fns.append(('%s.%s' % (name, k), v))
+            elif isinstance(v, type) and getattr(v, '__module__', None) == name:
+                for ck, cv in sorted(vars(v).items()):
+                    f_ = cv.__func__ if isinstance(cv, (staticmethod, classmethod)) else cv
+                    if isinstance(f_, types.FunctionType):
+                        fns.append(('%s.%s.%s' % (name, k, ck), f_))
+        for fname, f_ in fns:
+            dflt = list(f_.__defaults__ or ()) + [x for _, x in sorted((f_.__kwdefaults__ or {}).items())]
+            for x in dflt:
+                if not isinstance(x, (str, int, float, bool, type(None), bytes, frozenset)) and not callable(x) and not (isinstance(x, tuple) and not x):
+                    out.append((fname, x))
+    return out
 
 
 def watch_slots():
@@ -76,6 +140,9 @@ def watch_slots():
                     slots.append((dn, dd, k, 'v', v))
                 elif isinstance(v, (dict, list, set)):
                     slots.append((dn, dd, k, 'c', (id(v), len(v))))
+    # objects held as default argument values: shared by every call and every thread; watched by structure
+    for fname, obj in default_argument_objects():
+        slots.append((fname + '.<default argument>', {'x': obj}, 'x', 'd', deep_repr(obj)))
     return slots
 
 
@@ -99,7 +166,11 @@ def during_call_watch(every=5):
         st['checks'] += 1
         for dn, dd, k, kind, base in slots:
             cur = dd.get(k, '<deleted>')
-            if kind == 'v':
+            if kind == 'd':
+                now = deep_repr(cur)
+                if now != base:
+                    st['diffs'].append({'slot': dn, 'before': base[:80], 'during': now[:80], 'inside': frame.f_code.co_name})
+            elif kind == 'v':
                 if cur is not base and cur != base:
                     st['diffs'].append({'slot': '%s.%s' % (dn, k), 'before': repr(base)[:80], 'during': repr(cur)[:80], 'inside': frame.f_code.co_qualname if hasattr(frame.f_code, 'co_qualname') else frame.f_code.co_name})
             elif not isinstance(cur, (dict, list, set)) or (id(cur), len(cur)) != base:
@@ -261,6 +332,17 @@ def battery(rename=False):
                         x = x[0]
                     if isinstance(x, str) and x[:6].upper() in ('SELECT', 'INSERT', 'UPDATE', 'DELETE', 'CREATE', 'WITH c', 'WITH w') or (isinstance(x, str) and x.upper().startswith('WITH')):
                         texts.append(x)
+    except Exception:  # noqa
+        pass
+    # rejected texts whose error messages try out suggestions (statements cut after a token, with and without a wrong token appended)
+    try:
+        from harness import c19hist
+        for t in c19hist.texts('quick')[:400:2]:
+            try:
+                parse_sql(ren(t), 'mindsdb')
+            except Exception:  # noqa
+                pass
+            n += 1
     except Exception:  # noqa
         pass
     for sql in texts:
